@@ -49,15 +49,23 @@ Definition tview_eqb (a b : tview) : bool := seteq (tv_peers a) (tv_peers b) && 
 Definition view_of (s : rstate) : tview := {| tv_peers := map fst (peers s); tv_mesh := mesh s |}.
 
 (* the events a transition from view a to view b owes the tracer: leaves, removed peers, prunes in the
-   topics that stay joined, joins, added peers, grafts *)
+   topics that stay joined, joins, added peers, grafts.  Keys and peers are deduplicated and every mesh is read with
+   [aget], so that the definition makes sense for arbitrary (not necessarily duplicate-free) views. *)
+Fixpoint dedupn (l : list nat) : list nat :=
+  match l with [] => [] | x :: r => x :: filter (fun y => negb (Nat.eqb x y)) (dedupn r) end.
+Definition mesh_at (v : tview) (t : topic) : list peer := match aget t (tv_mesh v) with Some m => m | None => [] end.
+Definition has_topic (v : tview) (t : topic) : bool := match aget t (tv_mesh v) with Some _ => true | None => false end.
+Definition ev_left (a b : tview) : list topic := dedupn (filter (fun t => negb (has_topic b t)) (map fst (tv_mesh a))).
+Definition ev_gone (a b : tview) : list peer := filter (fun p => negb (memb p (tv_peers b))) (tv_peers a).
+Definition ev_prunes (a b : tview) : list tev :=
+  concat (map (fun t => if has_topic b t
+                        then map (fun p => TPrune p t) (filter (fun p => negb (memb p (mesh_at b t)) && negb (memb p (ev_gone a b))) (mesh_at a t))
+                        else []) (map fst (tv_mesh a))).
+Definition ev_joins (a b : tview) : list topic := dedupn (filter (fun t => negb (has_topic a t)) (map fst (tv_mesh b))).
+Definition ev_came (a b : tview) : list peer := filter (fun p => negb (memb p (tv_peers a))) (tv_peers b).
+Definition ev_grafts (a b : tview) : list tev :=
+  concat (map (fun t => map (fun p => TGraft p t) (filter (fun p => negb (memb p (mesh_at a t)) || memb p (ev_gone a b)) (mesh_at b t)))
+              (map fst (tv_mesh b))).
 Definition diff_events (a b : tview) : list tev :=
-  let left := filter (fun t => match aget t (tv_mesh b) with Some _ => false | None => true end) (map fst (tv_mesh a)) in
-  let gone := filter (fun p => negb (memb p (tv_peers b))) (tv_peers a) in
-  let prunes := concat (map (fun e => match aget (fst e) (tv_mesh b) with
-                                      | Some mb => map (fun p => TPrune p (fst e)) (filter (fun p => negb (memb p mb) && negb (memb p gone)) (snd e))
-                                      | None => [] end) (tv_mesh a)) in
-  let joins := filter (fun t => match aget t (tv_mesh a) with Some _ => false | None => true end) (map fst (tv_mesh b)) in
-  let came := filter (fun p => negb (memb p (tv_peers a))) (tv_peers b) in
-  let grafts := concat (map (fun e => let ma := match aget (fst e) (tv_mesh a) with Some m => m | None => [] end in
-                                      map (fun p => TGraft p (fst e)) (filter (fun p => negb (memb p ma) || memb p gone) (snd e))) (tv_mesh b)) in
-  map TLeave left ++ map TRemovePeer gone ++ prunes ++ map TJoin joins ++ map TAddPeer came ++ grafts.
+  map TLeave (ev_left a b) ++ map TRemovePeer (ev_gone a b) ++ ev_prunes a b
+  ++ map TJoin (ev_joins a b) ++ map TAddPeer (ev_came a b) ++ ev_grafts a b.
